@@ -234,6 +234,7 @@ func (c *Ctx) resolveKnown() {
 	}
 	c.indexHelperSites()
 	// ---- fields: same number of fields with the same types at the same positions
+	c.indexFieldGroups(c.structTypes())
 	for name, st := range c.structTypes() {
 		kf, ok := known.Fields[name]
 		if !ok || len(kf) != st.NumFields() {
@@ -253,6 +254,65 @@ func (c *Ctx) resolveKnown() {
 			if st.Field(i).Name() != kf[i][0] {
 				fieldAlias[short+"."+st.Field(i).Name()] = short + "." + kf[i][0]
 			}
+		}
+	}
+}
+
+// fieldGroups: "Struct.groupField" -> the known fields of Struct that a refactoring moved into
+// a new nested struct type held in groupField ("request.outcome" -> request.data, request.err).
+// The members of the nested type are aliased to the known names, so that rules keep seeing
+// "request.data" whether the field lives in the struct itself or one level down.
+var fieldGroups = map[string][]string{}
+
+func (c *Ctx) indexFieldGroups(structs map[string]*types.Struct) {
+	for name, st := range structs {
+		kf, ok := known.Fields[name]
+		if !ok {
+			continue
+		}
+		short := strings.TrimPrefix(name, "cmd.")
+		prefix := strings.TrimSuffix(name, short)
+		have := map[string]bool{}
+		for i := 0; i < st.NumFields(); i++ {
+			have[st.Field(i).Name()] = true
+		}
+		gone := map[string]string{} // known field no longer present directly -> its type
+		for _, f := range kf {
+			if !have[f[0]] {
+				gone[f[0]] = f[1]
+			}
+		}
+		if len(gone) == 0 {
+			continue
+		}
+		for i := 0; i < st.NumFields(); i++ {
+			nt, isNamed := st.Field(i).Type().(*types.Named)
+			if !isNamed {
+				continue
+			}
+			inner, isStruct := nt.Underlying().(*types.Struct)
+			if !isStruct || inner.NumFields() == 0 {
+				continue
+			}
+			if _, wasKnown := known.Fields[prefix+nt.Obj().Name()]; wasKnown {
+				continue
+			}
+			all := true
+			var members []string
+			for j := 0; j < inner.NumFields(); j++ {
+				f := inner.Field(j)
+				if t, moved := gone[f.Name()]; !moved || t != types.TypeString(f.Type(), nil) {
+					all = false
+				}
+				members = append(members, short+"."+f.Name())
+			}
+			if !all {
+				continue
+			}
+			for j := 0; j < inner.NumFields(); j++ {
+				fieldAlias[nt.Obj().Name()+"."+inner.Field(j).Name()] = short + "." + inner.Field(j).Name()
+			}
+			fieldGroups[short+"."+st.Field(i).Name()] = members
 		}
 	}
 }
